@@ -327,6 +327,13 @@ class HalfRankComponent(OutputWarper):
     """See base class."""
     labels_arr = _validate_labels(labels_arr)
     if labels_arr.size == 1:
+      # A single label is its own median: the warp is the identity. Record
+      # that, so that unwarp() does not use the mapping of an earlier call.
+      self._unwarper = _HalfRankUnwarper(
+          original_labels=labels_arr.flatten(),
+          warped_labels=labels_arr.flatten(),
+          original_label_median=labels_arr.flatten()[0],
+      )
       return labels_arr
     labels_arr = labels_arr.flatten()
     # Compute median, unique labels, and ranks.
